@@ -67,6 +67,33 @@ Theorem C12_result_complete_sound_partial :
 Proof. exact result_complete_sound_lemma. Qed.
 Print Assumptions C12_result_complete_sound_partial.
 
+(* T2 in FULL (no assumption on any oracle) for every schema list in which no Float declares
+   a minimum or maximum: exactly the schemas the nan defect cannot reach.  The core schemas
+   and the five bundled extension schemas contain no Float at all; the harness evaluates
+   [schemas_float_free] on the introspected real schemas on every run. *)
+Theorem C12_result_complete_sound_float_free :
+  forall o raw schemas,
+    schemas_float_free schemas = true ->
+    raw_ok raw -> NoDup (map schema_name schemas) -> Forall schema_ok schemas ->
+    exists C E, validate true o raw schemas = Ok (C, E) /\
+      forall n keys, In (SConfig n keys) schemas ->
+      forall k t, assoc k keys = Some t -> is_deprecated t = false ->
+        key_verdict o t (raw_get raw n k) (lookup2 C n k) (lookup2 E n k).
+Proof. exact result_complete_sound_float_free. Qed.
+Print Assumptions C12_result_complete_sound_float_free.
+
+Theorem C12_type_sound_float_free :
+  forall o t, no_bounded_float t = true -> sane_ty t = true ->
+  forall s v, deserialize o t s = Ok v ->
+    (v = VNone /\ ty_optional t = true /\ raw_empty t s = true) \/ (v <> VNone /\ wf o t v).
+Proof. exact deserialize_sound_float_free. Qed.
+Print Assumptions C12_type_sound_float_free.
+
+Example C12_refuting_schema_not_float_free :
+  schemas_float_free [SConfig [97] [([120], TFloat false (Some (FFin 0 1)) (Some (FFin 1 1)))]] = false.
+Proof. exact refuting_schema_not_float_free. Qed.
+Print Assumptions C12_refuting_schema_not_float_free.
+
 (* T2 without [no_nan] is false: Float(minimum, maximum) accepts nan (known finding). *)
 Theorem C12_result_complete_sound_full_refuted : ~ result_complete_sound_full.
 Proof. exact result_complete_sound_full_refuted. Qed.
